@@ -99,10 +99,114 @@ Proof.
   pose proof (dmul_le_r (dmul b u) (P18 - rf) ltac:(lia) ltac:(lia)). lia.
 Qed.
 
-(* the defect class: with UOptimal = 1 (accepted by Validate) a fully utilised pool divides by zero *)
+(* the curve of maths.go with UOptimal = 1 divides by zero in a fully utilised pool: this is why
+   Validate has to reject UOptimal >= 1 (C18-F1, repaired) *)
 Lemma kink_uopt_one_panics base s1 s2 : kink_apr P18 P18 base s1 s2 = None.
 Proof.
   unfold kink_apr, obindr. rewrite Z.ltb_irrefl.
   destruct (dsub_c P18 P18) as [n|] eqn:E1; [|reflexivity]. apply dsub_c_some in E1.
   rewrite Z.sub_diag in E1. subst. unfold dquo_c. rewrite Z.eqb_refl. reflexivity.
+Qed.
+
+(* ---------------- validated parameters ---------------- *)
+Lemma rates_valid_spec p : rates_valid p = true ->
+  rp_asset p <> 0 /\ 0 < rp_uopt p < P18 /\ 0 < rp_base p /\ 0 < rp_s1 p /\ 0 < rp_s2 p /\
+  0 <= rp_sbase p /\ 0 <= rp_ss1 p /\ 0 <= rp_ss2 p /\ 0 < rp_liqthr p /\ 0 < rp_liqbonus p /\
+  0 < rp_liqpen p /\ 0 < rp_ltv p /\ 0 < rp_rf p /\ rp_casset p <> 0.
+Proof. unfold rates_valid. intros H. repeat (apply andb_prop in H as [H ?]). lia. Qed.
+
+Lemma rates_valid_uopt_lt_one p : P18 <= rp_uopt p -> rates_valid p = false.
+Proof.
+  intros H. destruct (rates_valid p) eqn:E; [|reflexivity]. apply rates_valid_spec in E. lia.
+Qed.
+
+Lemma add_rates_params_spec p q : add_rates_params p = Ok q -> q = p /\ rates_valid p = true.
+Proof. unfold add_rates_params. destruct (rates_valid p); [|discriminate]. intros E. injection E as <-. auto. Qed.
+Lemma add_rates_pool_pairs_spec p n d e q : add_rates_pool_pairs p n d e = Ok q -> q = p /\ rates_valid p = true.
+Proof.
+  unfold add_rates_pool_pairs, pool_pairs_valid. destruct (rates_valid p); [|discriminate].
+  destruct (_ && _); [|discriminate]. destruct e; [discriminate|]. intros E. injection E as <-. auto.
+Qed.
+
+Lemma rates_bounded_spec p : rates_bounded p = true ->
+  rp_base p < RATE_MAX /\ rp_s1 p < RATE_MAX /\ rp_s2 p < RATE_MAX /\
+  rp_sbase p < RATE_MAX /\ rp_ss1 p < RATE_MAX /\ rp_ss2 p < RATE_MAX /\ rp_rf p < RATE_MAX.
+Proof. unfold rates_bounded. intros H. repeat (apply andb_prop in H as [H ?]). lia. Qed.
+
+(* ---------------- the rate is defined on [0,1] ---------------- *)
+Lemma rate_max_facts : 0 < RATE_MAX /\ 4 * RATE_MAX * RATE_MAX < two315 /\ 4 * RATE_MAX < two315 /\
+  2 * 1000000000000000000 * 1000000000000000000 < two315.
+Proof. vm_compute. repeat split. Qed.
+Lemma P18_val : P18 = 1000000000000000000. Proof. reflexivity. Qed.
+Global Opaque RATE_MAX two315.
+
+Lemma chk_dec_fits x : - two315 < x < two315 -> chk_dec x = Some x.
+Proof.
+  intros H. unfold chk_dec, fits_dec. destruct (Z.ltb_spec (Z.abs x) two315); [reflexivity|lia].
+Qed.
+
+Lemma kink_defined u uopt base s1 s2 :
+  0 < uopt -> uopt < P18 -> 0 <= base < RATE_MAX -> 0 <= s1 < RATE_MAX -> 0 <= s2 < RATE_MAX ->
+  0 <= u <= P18 ->
+  kink_apr u uopt base s1 s2 = Some (kink_val u uopt base s1 s2) /\
+  base <= kink_val u uopt base s1 s2 <= base + s1 + s2.
+Proof.
+  intros Hu0 Hu1 Hb Hs1 Hs2 Hu. pose proof rate_max_facts as (R0 & R1 & R2 & R3). pose proof P18_val as PV.
+  unfold kink_apr, kink_val, obindr, dquo_c, dmul_c, dadd_c, dsub_c.
+  destruct (Z.ltb_spec u uopt).
+  - destruct (Z.eqb_spec uopt 0); [lia|].
+    assert (Q0 : 0 <= dquo u uopt) by (apply dquo_nonneg; lia).
+    assert (Q1 : dquo u uopt <= P18) by (apply dquo_le_one; lia).
+    rewrite chk_dec_fits by lia.
+    pose proof (dmul_nonneg (dquo u uopt) s1 Q0 ltac:(lia)).
+    pose proof (dmul_le_l (dquo u uopt) s1 ltac:(lia) Q1).
+    rewrite chk_dec_fits by lia. rewrite chk_dec_fits by lia. split; [reflexivity|lia].
+  - rewrite chk_dec_fits by lia. rewrite chk_dec_fits by lia.
+    destruct (Z.eqb_spec (P18 - uopt) 0); [lia|].
+    assert (Q0 : 0 <= dquo (u - uopt) (P18 - uopt)) by (apply dquo_nonneg; lia).
+    assert (Q1 : dquo (u - uopt) (P18 - uopt) <= P18) by (apply dquo_le_one; lia).
+    rewrite chk_dec_fits by lia.
+    pose proof (dmul_nonneg (dquo (u - uopt) (P18 - uopt)) s2 Q0 ltac:(lia)).
+    pose proof (dmul_le_l (dquo (u - uopt) (P18 - uopt)) s2 ltac:(lia) Q1).
+    rewrite chk_dec_fits by lia. rewrite chk_dec_fits by lia. rewrite chk_dec_fits by lia.
+    split; [reflexivity|lia].
+Qed.
+
+(* a non-negative Dec times a non-positive one is non-positive *)
+Lemma dmul_nonneg_nonpos a b : 0 <= a -> b <= 0 -> dmul a b <= 0.
+Proof.
+  intros Ha Hb. dec_consts. pose proof (dmul_bounds a b). assert (a * b <= 0) by nia. nia.
+Qed.
+
+Lemma lend_defined b u rf : 0 <= b < 3 * RATE_MAX -> 0 <= u <= P18 -> 0 <= rf < RATE_MAX ->
+  lend_apr b u rf = Some (lend_val b u rf) /\ lend_val b u rf <= b /\ (rf <= P18 -> 0 <= lend_val b u rf).
+Proof.
+  intros Hb Hu Hrf. pose proof rate_max_facts as (R0 & R1 & R2 & R3). pose proof P18_val as PV. dec_consts.
+  unfold lend_apr, lend_val, obindr, dmul_c, dsub_c.
+  pose proof (dmul_nonneg b u ltac:(lia) ltac:(lia)) as X0. pose proof (dmul_le_r b u ltac:(lia) ltac:(lia)) as X1.
+  set (x := dmul b u) in *.
+  rewrite chk_dec_fits by lia. rewrite chk_dec_fits by lia.
+  destruct (Z.le_gt_cases rf P18) as [Hle|Hgt].
+  - pose proof (dmul_nonneg x (P18 - rf) X0 ltac:(lia)). pose proof (dmul_le_r x (P18 - rf) X0 ltac:(lia)).
+    rewrite chk_dec_fits by lia. split; [reflexivity|]. split; [lia|]. intros _. lia.
+  - pose proof (dmul_nonneg_nonpos x (P18 - rf) X0 ltac:(lia)) as Y0.
+    pose proof (dmul_bounds x (P18 - rf)) as Y1.
+    assert (- (3 * RATE_MAX * RATE_MAX) - 1 < dmul x (P18 - rf)) by nia.
+    rewrite chk_dec_fits by lia. split; [reflexivity|]. split; [lia|]. intros; lia.
+Qed.
+
+(* the curve selected by the IsStableBorrow flag *)
+Lemma borrow_apr_curve p stable u :
+  borrow_apr p stable u = kink_apr u (rp_uopt p) (if stable then rp_sbase p else rp_base p)
+                             (if stable then rp_ss1 p else rp_s1 p) (if stable then rp_ss2 p else rp_s2 p).
+Proof. unfold borrow_apr. destruct stable; reflexivity. Qed.
+
+(* the jump at the kink for every 0 < uopt < 1 (uopt = 1 ulp included: the lower neighbour is u = 0) *)
+Lemma kink_jump_all uopt base s1 s2 : 0 < uopt -> uopt < P18 -> 0 <= s1 -> 0 <= s2 ->
+  let d := kink_val uopt uopt base s1 s2 - kink_val (uopt - 1) uopt base s1 s2 in
+  0 <= d /\ d * uopt <= 2 * s1 + uopt.
+Proof.
+  intros Hu0 Hu1 Hs1 Hs2. destruct (Z.eq_dec uopt 1) as [->|Hn].
+  - cbv zeta. rewrite kink_at. change (1 - 1) with 0. rewrite kink_base by lia. lia.
+  - pose proof (kink_jump uopt base s1 s2 ltac:(lia) Hu1 Hs1 Hs2) as J. cbv zeta in *. tauto.
 Qed.
